@@ -115,6 +115,7 @@ fn main() {
     report::install_panic_hook();
     match property.as_str() {
         "C01" => mon::c01::run(&mut ctx),
+        "C11" => mon::c11::run(&mut ctx),
         "C12" => mon::c12::run(&mut ctx),
         "C20" => mon::c20::run(&mut ctx),
         "C18" => mon::c18::run(&mut ctx),
